@@ -157,10 +157,31 @@ def check_undo(crate, rep, cfg):
                         for bb, t in find_calls(root, ["std::collections::HashMap::<K, V, S, A>::remove", "std::collections::HashMap::<K, V, S>::remove"], blocks=region):
                             if rrec.field_of_arg(tr, t["args"][0]) == ".templates":
                                 ok_rem = True
+        # one ordered log, replayed in reverse: the remove (entry was new) and the re-insert (entry was replaced) sit in the SAME loop, which
+        # walks the log through Rev — two separate passes lose the order between "added" and "replaced" events of one name
+        same_loop = False
+        for sb in sorted(root.reachable):
+            if root.term(sb)["k"] != "switch":
+                continue
+            for tgt, fl in ef.facts_for_switch(sb).items():
+                for f in fl:
+                    if f[0] == "call" and f[1].endswith("::is_err") and f[3] is True:
+                        region = root.reach_from(tgt) & root.dominated_by(tgt)
+                        ins = [bb for bb, t in find_calls(root, ["std::collections::HashMap::<K, V, S, A>::insert", "std::collections::HashMap::<K, V, S>::insert"], blocks=sorted(region))
+                               if rrec.field_of_arg(tr, t["args"][0]) == ".templates"]
+                        rem = [bb for bb, t in find_calls(root, ["std::collections::HashMap::<K, V, S, A>::remove", "std::collections::HashMap::<K, V, S>::remove"], blocks=sorted(region))
+                               if rrec.field_of_arg(tr, t["args"][0]) == ".templates"]
+                        for i_ in ins:
+                            for r_ in rem:
+                                li, lr = root.innermost_loop(i_), root.innermost_loop(r_)
+                                if li is not None and li is lr:
+                                    nx = [t2 for b2, t2 in root.calls(sorted(li)) if callee_def(t2).endswith("Iterator::next")]
+                                    if nx and all("Rev<" in (t2["atys"][0] if t2["atys"] else "") for t2 in nx):
+                                        same_loop = True
         key = "C10.UNDO:%s:undo-branch" % path
-        ok = ok_rev and ok_ins and ok_rem
+        ok = ok_rev and ok_ins and ok_rem and same_loop
         (rep.ok if ok else rep.bad)("C10.UNDO", key, root.where(0), "on Err the adder walks the undo list in reverse, re-inserting replaced templates and removing new ones"
-                                    + ("" if ok else " — VIOLATED: reverse=%s re-insert=%s remove=%s" % (ok_rev, ok_ins, ok_rem)))
+                                    + ("" if ok else " — VIOLATED: reverse=%s re-insert=%s remove=%s, both in one reverse loop over the log=%s" % (ok_rev, ok_ins, ok_rem, same_loop)))
         rep.floor("C10.UNDO", "forward inserts into Tera.templates under %s [%s]" % (path.rsplit("::", 1)[-1], cfg), n_ins + (1 if path.endswith("files") else 0), 1)
     # load_from_glob (glob_fs): whole-map swap on error
     lg = [b for p, b in crate.bodies.items() if p == "tera::Tera::load_from_glob"]
@@ -252,10 +273,13 @@ def check_mut(crate, rep, cfg):
             roots.add(root)
             sites.append(a)
     key = "C10.MUT:mutator-set"
-    extra = roots - MUTATORS
-    (rep.ok if not extra else rep.bad)("C10.MUT", key, "", "the functions changing the key set of Tera.templates are %s (reviewed: %s)" % (sorted(roots), sorted(MUTATORS))
+    # a private helper all of whose callers are reviewed mutators is part of them (an extracted undo loop, say)
+    helpers = {r for r in roots - MUTATORS if rrec.only_called_from(crate, r, MUTATORS)}
+    extra = roots - MUTATORS - helpers
+    (rep.ok if not extra else rep.bad)("C10.MUT", key, "", "the functions changing the key set of Tera.templates are %s (reviewed: %s%s)" % (sorted(roots), sorted(MUTATORS),
+                                                                                                                                      "; private helpers of those: %s" % sorted(helpers) if helpers else "")
                                        + ("" if not extra else " — VIOLATED: unreviewed mutator(s) %s" % sorted(extra)))
-    rep.floor("C10.MUT", "key-set mutations of Tera.templates [%s]" % cfg, len(sites), 5)
+    rep.floor("C10.MUT", "key-set mutations of Tera.templates [%s]" % cfg, len(sites), 3)
     for root in sorted(roots & MUTATORS):
         if root.endswith("add_file"):
             # helper: all callers are mutators with finalize
